@@ -731,6 +731,30 @@ type proc struct {
 	comp    component.Component
 	consume func(ctx context.Context, id string) (want []byte, err error)
 	sk      *sink
+	// shape of the next payload (a proc is used by one goroutine at a time); reset to shapeItems by checkConsume
+	shape int
+}
+
+// payload shapes: besides payloads with items, payloads that carry no item at all. While the limiter is not
+// refusing they are forwarded unmodified like any other payload (the sink must see the call and its result
+// comes back); while refusing they get the non-permanent error.
+const (
+	shapeItems = iota
+	shapeEmpty
+	shapeResourceOnly
+	shapeScopeOnly
+	shapeNoPoints // metrics: a metric without data points; profiles: a profile without samples; else as scope-only
+	nShapes
+)
+
+var shapeNames = []string{"items", "empty", "resource-only", "scope-only", "container-without-points"}
+
+// drawShape: about 40 % of the payloads carry no items.
+func drawShape(rng *rand.Rand) int {
+	if rng.Intn(5) < 3 {
+		return shapeItems
+	}
+	return 1 + rng.Intn(nShapes-1)
 }
 
 var signals = []string{"logs", "traces", "metrics", "profiles"}
@@ -754,11 +778,18 @@ func mkProc(fac xprocessor.Factory, signal string, lg *zap.Logger, cfg component
 		p.comp = pr
 		p.consume = func(ctx context.Context, id string) ([]byte, error) {
 			ld := plog.NewLogs()
-			rl := ld.ResourceLogs().AppendEmpty()
-			rl.Resource().Attributes().PutStr("id", id)
-			sl := rl.ScopeLogs().AppendEmpty()
-			sl.LogRecords().AppendEmpty().Body().SetStr(id + ".0")
-			sl.LogRecords().AppendEmpty().Body().SetStr(id + ".1")
+			if p.shape != shapeEmpty {
+				rl := ld.ResourceLogs().AppendEmpty()
+				rl.Resource().Attributes().PutStr("id", id)
+				if p.shape != shapeResourceOnly {
+					sl := rl.ScopeLogs().AppendEmpty()
+					sl.Scope().SetName("scope." + id)
+					if p.shape == shapeItems {
+						sl.LogRecords().AppendEmpty().Body().SetStr(id + ".0")
+						sl.LogRecords().AppendEmpty().Body().SetStr(id + ".1")
+					}
+				}
+			}
 			want, _ := (&plog.ProtoMarshaler{}).MarshalLogs(ld)
 			return want, pr.ConsumeLogs(ctx, ld)
 		}
@@ -774,11 +805,18 @@ func mkProc(fac xprocessor.Factory, signal string, lg *zap.Logger, cfg component
 		p.comp = pr
 		p.consume = func(ctx context.Context, id string) ([]byte, error) {
 			td := ptrace.NewTraces()
-			rs := td.ResourceSpans().AppendEmpty()
-			rs.Resource().Attributes().PutStr("id", id)
-			ss := rs.ScopeSpans().AppendEmpty()
-			ss.Spans().AppendEmpty().SetName(id + ".0")
-			ss.Spans().AppendEmpty().SetName(id + ".1")
+			if p.shape != shapeEmpty {
+				rs := td.ResourceSpans().AppendEmpty()
+				rs.Resource().Attributes().PutStr("id", id)
+				if p.shape != shapeResourceOnly {
+					ss := rs.ScopeSpans().AppendEmpty()
+					ss.Scope().SetName("scope." + id)
+					if p.shape == shapeItems {
+						ss.Spans().AppendEmpty().SetName(id + ".0")
+						ss.Spans().AppendEmpty().SetName(id + ".1")
+					}
+				}
+			}
 			want, _ := (&ptrace.ProtoMarshaler{}).MarshalTraces(td)
 			return want, pr.ConsumeTraces(ctx, td)
 		}
@@ -794,11 +832,22 @@ func mkProc(fac xprocessor.Factory, signal string, lg *zap.Logger, cfg component
 		p.comp = pr
 		p.consume = func(ctx context.Context, id string) ([]byte, error) {
 			md := pmetric.NewMetrics()
-			rm := md.ResourceMetrics().AppendEmpty()
-			rm.Resource().Attributes().PutStr("id", id)
-			m := rm.ScopeMetrics().AppendEmpty().Metrics().AppendEmpty()
-			m.SetName(id + ".0")
-			m.SetEmptyGauge().DataPoints().AppendEmpty().SetIntValue(7)
+			if p.shape != shapeEmpty {
+				rm := md.ResourceMetrics().AppendEmpty()
+				rm.Resource().Attributes().PutStr("id", id)
+				if p.shape != shapeResourceOnly {
+					sm := rm.ScopeMetrics().AppendEmpty()
+					sm.Scope().SetName("scope." + id)
+					if p.shape == shapeItems || p.shape == shapeNoPoints {
+						m := sm.Metrics().AppendEmpty()
+						m.SetName(id + ".0")
+						g := m.SetEmptyGauge()
+						if p.shape == shapeItems {
+							g.DataPoints().AppendEmpty().SetIntValue(7)
+						}
+					}
+				}
+			}
 			want, _ := (&pmetric.ProtoMarshaler{}).MarshalMetrics(md)
 			return want, pr.ConsumeMetrics(ctx, md)
 		}
@@ -814,11 +863,21 @@ func mkProc(fac xprocessor.Factory, signal string, lg *zap.Logger, cfg component
 		p.comp = pr
 		p.consume = func(ctx context.Context, id string) ([]byte, error) {
 			pd := pprofile.NewProfiles()
-			rp := pd.ResourceProfiles().AppendEmpty()
-			rp.Resource().Attributes().PutStr("id", id)
-			pf := rp.ScopeProfiles().AppendEmpty().Profiles().AppendEmpty()
-			pf.SetOriginalPayloadFormat(id + ".0")
-			pf.Sample().AppendEmpty()
+			if p.shape != shapeEmpty {
+				rp := pd.ResourceProfiles().AppendEmpty()
+				rp.Resource().Attributes().PutStr("id", id)
+				if p.shape != shapeResourceOnly {
+					sp := rp.ScopeProfiles().AppendEmpty()
+					sp.Scope().SetName("scope." + id)
+					if p.shape == shapeItems || p.shape == shapeNoPoints {
+						pf := sp.Profiles().AppendEmpty()
+						pf.SetOriginalPayloadFormat(id + ".0")
+						if p.shape == shapeItems {
+							pf.Sample().AppendEmpty()
+						}
+					}
+				}
+			}
 			want, _ := (&pprofile.ProtoMarshaler{}).MarshalProfiles(pd)
 			return want, pr.ConsumeProfiles(ctx, pd)
 		}
@@ -853,6 +912,16 @@ func checkConsume(c *driver.Ctx, p *proc, id string, refusing int, sinkKind int,
 	}
 	if len(when) > 0 {
 		c.Observe("l2_consume_immediately_after_sharer_"+when[0], 1)
+	}
+	shape := p.shape
+	defer func() { p.shape = shapeItems }()
+	if shape != shapeItems {
+		c.Observe("l2_consume_payloads_without_items", 1)
+		c.Distinct("itemless_payloads", p.Signal, shapeNames[shape], refusing, sinkKind)
+		inner := viol
+		viol = func(sub, what string, sig ...string) {
+			inner(sub, "payload without items ("+shapeNames[shape]+"): "+what, append(sig, "shape", shapeNames[shape])...)
+		}
 	}
 	p.sk.mu.Lock()
 	p.sk.result = res
@@ -901,6 +970,7 @@ type l2op struct {
 	Class  string `json:"class,omitempty"`
 	Effect string `json:"gc_effect,omitempty"`
 	Sink   string `json:"sink,omitempty"`
+	Shape  string `json:"payload_shape,omitempty"`
 	Expect string `json:"expect,omitempty"`
 }
 
@@ -1007,7 +1077,8 @@ func (e *l2env) l2Sequential(idx int64, rng *rand.Rand, allowGap bool) {
 			}
 			sk := rng.Intn(3)
 			_, skName := sinkResult(sk)
-			ops = append(ops, l2op{Kind: "consume", P: i, Sink: skName, Expect: fmt.Sprintf("refusing=%v (immediately after the %s, no check awaited)", refusing, ev)})
+			p.shape = drawShape(rng)
+			ops = append(ops, l2op{Kind: "consume", P: i, Sink: skName, Shape: shapeNames[p.shape], Expect: fmt.Sprintf("refusing=%v (immediately after the %s, no check awaited)", refusing, ev)})
 			checkConsume(c, p, fmt.Sprintf("i%d.%d.%d", idx, step, i), r, sk, wit, ev)
 		}
 	}
@@ -1128,6 +1199,8 @@ func (e *l2env) l2Sequential(idx int64, rng *rand.Rand, allowGap bool) {
 			if refusing {
 				r = 1
 			}
+			procs[i].shape = drawShape(rng)
+			ops[len(ops)-1].Shape = shapeNames[procs[i].shape]
 			checkConsume(c, procs[i], fmt.Sprintf("c%d.%d", idx, step), r, sk, wit)
 		}
 	}
@@ -1509,14 +1582,22 @@ func (e *l2env) l2ShareSwitch(idx int64, rng *rand.Rand, refuse bool) {
 			}
 			sk := rng.Intn(3)
 			_, skName := sinkResult(sk)
-			ops = append(ops, l2op{Kind: "consume", P: i, Sink: skName, Expect: fmt.Sprintf("refusing=%v (immediately after the %s, no check awaited)", refuse, ev)})
+			p.shape = drawShape(rng)
+			ops = append(ops, l2op{Kind: "consume", P: i, Sink: skName, Shape: shapeNames[p.shape], Expect: fmt.Sprintf("refusing=%v (immediately after the %s, no check awaited)", refuse, ev)})
 			checkConsume(c, p, fmt.Sprintf("s%d.%d.%d", idx, round, i), mode, sk, wit, ev)
 		}
 	}
 	// settled mode, before any lifecycle event
 	for i, p := range procs {
-		if started[i] {
-			checkConsume(c, p, fmt.Sprintf("s%d.b.%d", idx, i), mode, rng.Intn(3), wit)
+		if !started[i] {
+			continue
+		}
+		for shape := 0; shape < nShapes; shape++ {
+			sk := (shape + i + int(idx)) % 3
+			_, skName := sinkResult(sk)
+			p.shape = shape
+			ops = append(ops, l2op{Kind: "consume", P: i, Sink: skName, Shape: shapeNames[shape], Expect: fmt.Sprintf("refusing=%v", refuse)})
+			checkConsume(c, p, fmt.Sprintf("s%d.b.%d.%d", idx, i, shape), mode, sk, wit)
 		}
 	}
 	// a further sharer starts
@@ -1627,6 +1708,7 @@ func (e *l2env) l2ShareSwitchConcurrent(idx int64, rng *rand.Rand, refuse bool) 
 		}(i)
 	}
 	for k := 0; running.Load() > 0 || k < 8; k++ {
+		procs[0].shape = k % nShapes
 		checkConsume(c, procs[0], fmt.Sprintf("xa%d.%d", idx, k), mode, k%3, wit, "concurrent-start-shutdown")
 		if k%4 == 3 {
 			runtime.Gosched()
@@ -1740,6 +1822,7 @@ func main() {
 		Assumptions: []string{
 			"limit configurations are those accepted by Config.Validate whose byte limits are exact integers (percentages of totals divisible by 100, default spike of limits divisible by 5), so the reference does not depend on rounding",
 			"minimum GC interval regimes 0 (always due) and 1 h (never due) are decided without a clock; the few real-interval cases judge a decision only when harness timestamps bracket it clearly on one side",
+			"L2 payloads: about 40 % carry no items (empty, resource-only, scope-only, metric without data points / profile without samples) and the directed share-switch cases send every shape through every sharer; the sink counts calls, its scripted result (nil, transient, permanent) must come back also for them",
 			"L2 never consumes through a processor that is not started or already shut down; checker liveness is judged relative to a witness ticker of the same period (3 x 400 witness ticks without one measurement and without a limiter goroutine inside a check = stopped)",
 			"interleavings in which every user shut down and a further processor of the same configuration starts afterwards are generated (the directed reproducer of C18-a and 1 in 32 sequential cases); a collector never produces them (all components start before any stops)",
 		},
